@@ -184,6 +184,11 @@ class ModuleSweep:
                 op = rnd.choice('sdi')
                 inputs.append(x[:i] + rnd.choice(alpha) + x[i + 1:] if op == 's' else x[:i] + x[i + 1:] if op == 'd' else x[:i] + rnd.choice(alpha) + x[i:])
             inputs += [x + '\n', ' ' + x, x.lower(), x + '\u0660']
+        # the rest of the corpus (the number lists of tests/*.doctest) as it stands, and synthesised valid numbers: cheap
+        first = set(corpus.valid_numbers(self.modname, 10 if self.tier == 'quick' else 40))
+        more = [x for x in corpus.valid_numbers(self.modname, 400 if self.tier == 'quick' else 4000) if x not in first]
+        inputs += more + [x for x in corpus.synth_valid(self.modname, 30 if self.tier == 'quick' else 300, int(os.environ.get('VERIF_SEED', '0') or 0))
+                          if x not in more]
         n = 0
         for opts in option_valuations(self.mod):
             for x in inputs + [None, 5, 1.5, b'12', ['1', '2'], object()]:
